@@ -656,7 +656,9 @@ def run_redirects(ctx, case):
             "max_redirects": case["max_redirects"], "follow": case["follow"]}
 
     # narrow structural classes of the open findings
-    sig_producer = "C09.redirect.body_producer_kept_on_rewrite" if facts["producer_rewrite"] else None
+    # (symptom of the body_producer finding: a connection was opened for the rewritten request and nothing was written)
+    sig_producer = ("C09.redirect.body_producer_kept_on_rewrite"
+                    if facts["producer_rewrite"] and any(raw == b"" for _, raw in st_["received"]) else None)
     sig_interim = "C09.redirect.followed_twice_after_interim" if facts["followed_interim"] else None
     sig_followup = "C09.fetch_never_completes.followup_fetch_error" if facts["followup_failure"] else None
 
@@ -669,8 +671,13 @@ def run_redirects(ctx, case):
     if len(received) > case["max_redirects"] + 1 or (not case["follow"] and len(received) > 1):
         ctx.fail("C09.more_requests_than_max_redirects", base, sig=sig_interim or "C09.more_requests_than_max_redirects")
     elif len(received) != len(expected):
-        ctx.fail("C09.request_count", dict(base, expected=len(expected)),
-                 sig=sig_interim or (sig_producer if len(received) <= len(expected) else None) or "C09.request_count")
+        # attribute by symptom: extra requests are the duplicates of the interim finding, missing ones come from a
+        # follow-up that failed before it was written (body_producer finding)
+        if len(received) > len(expected):
+            sig = sig_interim
+        else:
+            sig = sig_producer or sig_interim
+        ctx.fail("C09.request_count", dict(base, expected=len(expected)), sig=sig or "C09.request_count")
     crossed_with_creds = False
     for j, (c, raw) in enumerate(received[: len(expected)]):
         if len(received) != len(expected) or facts["followed_interim"]:
@@ -730,8 +737,13 @@ def run_redirects(ctx, case):
         ctx.fail("C09.client_not_idle", dict(base, state=st_["idle"]), sig=sig_interim or sig_producer or "C09.client_not_idle")
     bad = [r for r in logs.errors() if "Exception in callback" in r[2] or "ncaught" in r[2]]
     if bad:
-        ctx.fail("C09.exception_logged", dict(base, logs=[b[2][:300] for b in bad[:2]]),
-                 sig=sig_interim or sig_producer or sig_followup or "C09.exception_logged")
+        if o[0] == "pending":
+            # the follow-up's error was raised inside the done callback, so the fetch never completed
+            sig = sig_producer or sig_followup or sig_interim
+        else:
+            # second finish(): final_callback is None when the duplicate follow-up completes (TypeError)
+            sig = sig_interim or sig_producer or sig_followup
+        ctx.fail("C09.exception_logged", dict(base, logs=[b[2][:300] for b in bad[:2]]), sig=sig or "C09.exception_logged")
 
     labels = {"follow_%s" % case["follow"], "hops_%d" % min(len(case["hops"]), 3), "method_" + case["method"]}
     if facts["followed"]:
